@@ -23,11 +23,48 @@ Qed.
 
 Lemma rows_nonempty : forall v,
   match identity_rows v with [] => false | _ => true end
-  = match v with VStruct r => existsb negb r | VSlice rs => existsb (existsb negb) rs end.
+  = match v with VStruct r => existsb negb r | VSlice rs => existsb (existsb negb) rs
+    | VSelf cols => existsb negb (self_record cols) end.
 Proof.
-  intros [r|rs]; cbn [identity_rows].
+  intros [r|rs|cols]; cbn [identity_rows].
   - rewrite not_zero_exists. destruct (existsb negb r); reflexivity.
   - rewrite filter_nonempty_existsb. apply existsb_ext. intros; apply not_zero_exists.
+  - rewrite not_zero_exists. destruct (existsb negb (self_record cols)); reflexivity.
+Qed.
+
+(* the column loop of an update value that is the model: conditions come from the non-zero key
+   columns only, whatever Select / Omit say *)
+Lemma self_conds_acc : forall cols n,
+  Nat.eqb (fold_left (fun n c => n + self_col_conds c)%nat cols n) 0
+  = Nat.eqb n 0 && negb (existsb negb (self_record cols)).
+Proof.
+  induction cols as [|c cols IH]; intro n; cbn [fold_left].
+  - cbn. rewrite Bool.andb_true_r. reflexivity.
+  - rewrite IH. unfold self_record. cbn [filter]. unfold self_col_conds.
+    destruct c as [pk z sel]; cbn [col_pk col_zero col_sel].
+    destruct pk; cbn [negb map existsb].
+    + destruct z; cbn [negb orb].
+      * rewrite Nat.add_0_r. reflexivity.
+      * rewrite Bool.andb_false_r. destruct n; reflexivity.
+    + destruct sel; rewrite Nat.add_0_r; reflexivity.
+Qed.
+Lemma self_key_conds_spec : forall cols,
+  Nat.eqb (self_key_conds cols) 0 = negb (existsb negb (self_record cols)).
+Proof. intro cols. unfold self_key_conds. rewrite self_conds_acc. reflexivity. Qed.
+
+(* Select / Omit never change the key condition of such an update: two column lists that differ
+   in their selection state only yield the same number of conditions *)
+Lemma self_key_ignores_select : forall cols cols',
+  map (fun c => (col_pk c, col_zero c)) cols = map (fun c => (col_pk c, col_zero c)) cols' ->
+  self_key_conds cols = self_key_conds cols'.
+Proof.
+  unfold self_key_conds. generalize 0%nat.
+  intros n cols; revert n. induction cols as [|c cols IH]; intros n [|c' cols'] H; try discriminate; [reflexivity|].
+  cbn [map] in H. inversion H as [[Hpk Hz Hr]]. cbn [fold_left].
+  assert (Hc : self_col_conds c = self_col_conds c').
+  { unfold self_col_conds. rewrite Hpk, Hz. destruct (col_pk c'); cbn [negb]; [reflexivity|].
+    destruct (col_sel c), (col_sel c'); reflexivity. }
+  rewrite Hc. apply IH. exact Hr.
 Qed.
 
 Lemma length_filter_zero {A} (f : A -> bool) l : Nat.eqb (length (filter f l)) 0 = negb (existsb f l).
@@ -67,15 +104,17 @@ Lemma update_conds_acc : forall vals n,
   Nat.eqb (fold_left (fun n v => n + match v with
                               | VStruct r => length (filter negb r)
                               | VSlice rs => if update_scan_zero rs then 0 else 1
+                              | VSelf cols => self_key_conds cols
                               end)%nat vals n) 0
   = Nat.eqb n 0 && negb (has_key vals).
 Proof.
   induction vals as [|v vals IH]; intro n; cbn [fold_left].
   - cbn. rewrite Bool.andb_true_r. reflexivity.
   - rewrite IH. unfold has_key. cbn [existsb]. rewrite Bool.negb_orb, Bool.andb_assoc. f_equal.
-    destruct v as [r|rs].
+    destruct v as [r|rs|cols].
     + rewrite <- length_filter_zero. destruct n, (length (filter negb r)); reflexivity.
     + rewrite update_scan_zero_spec. destruct n, (existsb (existsb negb) rs); reflexivity.
+    + rewrite <- self_key_conds_spec. destruct n, (self_key_conds cols); reflexivity.
 Qed.
 
 Lemma update_key_iff : forall vals, key_cond false vals = has_key vals.
@@ -90,17 +129,22 @@ Proof. intros [|] vals; [apply delete_key_iff | apply update_key_iff]. Qed.
 
 Lemma has_key_spec : forall vals,
   has_key vals = true <->
-  exists v r, In v vals /\ (v = VStruct r \/ exists rs, v = VSlice rs /\ In r rs) /\ In false r.
+  exists v r, In v vals /\ (v = VStruct r \/ (exists rs, v = VSlice rs /\ In r rs)
+                            \/ (exists cols, v = VSelf cols /\ r = self_record cols)) /\ In false r.
 Proof.
   intro vals. unfold has_key. rewrite existsb_exists. split.
-  - intros [v [Hin Hv]]. destruct v as [r|rs].
+  - intros [v [Hin Hv]]. destruct v as [r|rs|cols].
     + apply existsb_exists in Hv. destruct Hv as [z [Hz Hn]]. destruct z; [discriminate|].
       exists (VStruct r), r. auto.
     + apply existsb_exists in Hv. destruct Hv as [r [Hr Hn]].
       apply existsb_exists in Hn. destruct Hn as [z [Hz Hn]]. destruct z; [discriminate|].
-      exists (VSlice rs), r. split; [exact Hin|]. split; [right; exists rs; auto | exact Hz].
-  - intros [v [r [Hin [[-> | [rs [-> Hr]]] Hf]]]].
+      exists (VSlice rs), r. split; [exact Hin|]. split; [right; left; exists rs; auto | exact Hz].
+    + apply existsb_exists in Hv. destruct Hv as [z [Hz Hn]]. destruct z; [discriminate|].
+      exists (VSelf cols), (self_record cols). split; [exact Hin|].
+      split; [right; right; exists cols; auto | exact Hz].
+  - intros [v [r [Hin [[-> | [[rs [-> Hr]] | [cols [-> ->]]]] Hf]]]].
     + exists (VStruct r). split; [exact Hin|]. apply existsb_exists. exists false. auto.
     + exists (VSlice rs). split; [exact Hin|]. apply existsb_exists. exists r. split; [exact Hr|].
       apply existsb_exists. exists false. auto.
+    + exists (VSelf cols). split; [exact Hin|]. apply existsb_exists. exists false. auto.
 Qed.
